@@ -153,4 +153,15 @@ PROPS = {
         "assumes": ["SQLite's write-ahead rule for journals", "journal record checksums are the weak SQLite nonce sums (collisions not excluded)"],
         "trusted_base": ["Model/WalJournal.v hand-written; tie = cases_c17_*.v"],
     },
+    "C11": {
+        "gen": ["RWMutexGen.v", "ConstsGen.v"], "props_file": "Props/C11.v", "coq_targets": ["Props/C11.v"],
+        "level_text": "Proof: over the lock table built from twelve instances of the RWMutex model generated from rwmutex.go, for any number of owners and every reachable table: a granted internal write lock holds every conflicting lock exclusively with all other owners unlocked on them (both modes), every attempt of another owner on such a lock is refused without change until release, a refused attempt releases everything and touches nobody, the attempt never gets stuck; CKPT is granted only when no other owner holds WRITE; WAL writes are allowed iff some owner holds WRITE exclusively; byte ranges map to exactly the contained lock bytes, never HALT (Props/C11.v). "
+                      "Tie: the lock-byte constants and the RWMutex workers are regenerated from the source; TryLocks/TryRLocks/Unlock/CanLock/CanRLock/TryAcquireWriteLock and the WAL-write guard of the real DB are driven with random sequences of 3 application owners plus internal writers in both modes and compared call by call with the model and with an independent POSIX lock table.",
+        "level_note": "Trusted: Coq kernel, translator (RWMutex, constants), harness. Modelled not verified: db.go TryLocks..TryAcquireWriteLock text (hand-written model; the script is not generated yet). Observation: WriteWALAt checks that SOME owner holds WRITE exclusively, not that the writing owner does.",
+        "technique": "Coq proof (per-lock invariant lifted to the table, script lemma by last action per lock) + generated RWMutex model + vm_compute correspondence",
+        "rule": "random sequences (10-50 calls quick, 10-130 thorough) of try-exclusive / try-shared / unlock / can-lock on protocol-typical lock sets by 3 owners, internal write-lock attempts and releases, WAL-write probes, in rollback and WAL mode; 400 byte-range pairs around the lock bytes; distinct = (mode, length) classes; non-trivial = each call compared with the lock rules and the model",
+        "explanation": "Theorems quantify over all tables, owners and interleavings (others' steps are arbitrary primitive operations); the harness ties the table model to db.go.",
+        "assumes": ["application connections follow SQLite's locking protocol (which locks a reader/writer holds)"],
+        "trusted_base": ["Model/Locks.v hand-written over Gen/RWMutexGen.v; tie = cases_c11_*.v"],
+    },
 }
